@@ -455,6 +455,63 @@ mutant("worker-goroutine-runs-steps", ["C13"], [("cpu.go", """	cpu.HALT = false
 		cpu.Step()""")], note="Run returns while a goroutine still steps the CPU")
 
 
+# ---- third informed review, blind spots B1-B3 ---------------------------------------------------
+mutant("run-skips-stop-tests-every-4096th-step", ["C08"], [("cpu.go", """	cpu.HALT = false
+	for {
+		if atomic.LoadInt32(&canceled) != 0 {
+			return ctxErr
+		}
+		cpu.Step()
+		if cpu.BreakPoints != nil {""", """	cpu.HALT = false
+	for n := 1; ; n++ {
+		if atomic.LoadInt32(&canceled) != 0 {
+			return ctxErr
+		}
+		cpu.Step()
+		if n&0xfff == 0 {
+			continue
+		}
+		if cpu.BreakPoints != nil {""")], note="stop tests skipped on every 4096th Step: a breakpoint reached then is run through, a HALT seen one Step late")
+mutant("dd-prefix-chain-loops-inside-one-step", ["C12", "C13"], [("operation.go", """	case 0xdd:
+		switch c1 := cpu.fetchM1(); c1 {
+""", """	case 0xdd:
+		c1 := cpu.fetchM1()
+		for c1 == 0xdd {
+			c1 = cpu.fetchM1()
+		}
+		switch c1 {
+""")], note="last prefix wins, as on silicon - but a memory of nothing but DD never lets the Step return")
+mutant("tinycpm-newio-without-warn-logger", ["C18"], [("internal/tinycpm/tinycpm.go", """		stdout: os.Stdout,
+		warnl:  log.New(os.Stderr, "[WARN][IO]", 0),
+""", """		stdout: os.Stdout,
+""")], note="a machine nobody configured panics on its first IN / OUT to another port")
+
+# ---- legitimate variants: every check must stay quiet (third informed review, A1) -----------------
+mutant("request-posted-during-acceptance-is-kept", [], quiet=["C05", "C06", "C07", "C08", "C10", "C12"], edits=[
+    ("cpu.go", """	if cpu.Interrupt != nil && cpu.processInterrupt() {
+		cpu.Interrupt = nil
+		return
+	}""", """	if req := cpu.Interrupt; req != nil {
+		cpu.Interrupt = nil
+		if cpu.processInterrupt(req) {
+			return
+		}
+		cpu.Interrupt = req
+	}"""),
+    ("cpu.go", """func (cpu *CPU) processInterrupt() bool {
+	if cpu.Interrupt.Type == NMIType {""", """func (cpu *CPU) processInterrupt(req *Interrupt) bool {
+	if req.Type == NMIType {"""),
+    ("cpu.go", """		if len(cpu.Interrupt.Data) > 0 {
+			savedMemory := cpu.Memory
+			cpu.Memory = newIm0data(cpu.PC, cpu.Interrupt.Data, savedMemory)""", """		if len(req.Data) > 0 {
+			savedMemory := cpu.Memory
+			cpu.Memory = newIm0data(cpu.PC, req.Data, savedMemory)"""),
+    ("cpu.go", """		if len(cpu.Interrupt.Data) > 0 {
+			// Take the vector first""", """		if len(req.Data) > 0 {
+			// Take the vector first"""),
+    ("cpu.go", """			vector := cpu.Interrupt.Data[0] & 0xfe""", """			vector := req.Data[0] & 0xfe"""),
+], note="the slot is emptied before the acceptance, so a request a device posts during the acknowledge push survives until the next Step instead of being erased with the served one: no statement promises an empty slot after an acceptance")
+
 def run(cmd, **kw):
     return subprocess.run(cmd, stdout=subprocess.PIPE, stderr=subprocess.STDOUT, text=True, **kw)
 
